@@ -46,6 +46,13 @@ let handle (line : string) : string =
   | "mem" :: rest -> Fsm_io.run_mem rest
   | "node" :: rest -> Node_io.run_node rest
   | "board" :: rest -> run_board rest
+  | "rmwlabels" :: _ ->
+    let sh l = String.concat "," (List.map (fun x -> string_of_int (int_of_n (M.N.of_nat x))) l) in
+    "rmwlabels request=" ^ sh M.a_labels ^ " poller=" ^ sh M.b_labels
+  | "rmw" :: bits :: _ ->
+    let sc = List.init (String.length bits) (fun i -> bits.[i] = 'A') in
+    let p = M.pending_after sc in
+    "rmw pending=" ^ String.concat "," (List.map (fun x -> string_of_int (int_of_n (M.N.of_nat x))) p)
   | "skip" :: rest -> "skip " ^ String.concat " " rest
   | [] -> ""
   | k :: _ -> "unknown-case " ^ k
